@@ -4,9 +4,9 @@
      do_conf_str_meson     mesonbuild/utils/universal.py:1692-1717
      do_conf_str_cmake     mesonbuild/utils/universal.py:1719-1750
      do_conf_file          mesonbuild/utils/universal.py:1752-1770 (readlines / writelines)
-   Modelled WITH these patches applied: C14-cmakedefine-indent (arr = line.lstrip()[1:].split(),
-   in /repo since a3dbc3e), pending/C14-mesondefine-value-rescanned.diff (no second scan of a
-   string value) and pending/C14-define-line-eol.diff (define lines keep their terminator).
+   As in /repo after the C14 fix commits: cmakedefine-indent (arr = line.lstrip()[1:].split(), a3dbc3e),
+   mesondefine-value-rescanned (no second scan of a string value, 301c8e1 / 3c80eb2) and
+   define-line-eol (define lines keep their terminator).
    Model file: definitions only, no proofs. *)
 From MV Require Import Base.Strs Subst.Data Subst.Meson Subst.CMake.
 Open Scope N_scope.
